@@ -380,6 +380,18 @@ def _ws_message_block(srv):
     return res
 
 
+
+def _native_battery(out, scenario, vectors, what):
+    """validation, not the deciding step: the native scenario (real crates, oracle written from the property text) on fixed vectors must report nothing
+    when every obligation is discharged; a disagreement means an obligation or the oracle is wrong => undecided"""
+    val = R.validate_encoding(scenario, vectors, lambda v: {}, [])
+    VALIDATION[what] = val
+    if val.get("native_violations") and all(r.get("status") == "discharged" for r in out):
+        out.append(R.Result(engine="mirsym", name="validation:" + what, kind="validation", status="native-battery-disagrees",
+                            detail=f"{val['native_violations']} native violation(s) on the validation vectors although every obligation is discharged", bodies=[]))
+    return out
+
+
 def obligations(tier, seed):
     srv = R.bodies("server")
     core = R.bodies("core")
@@ -433,4 +445,4 @@ def obligations(tier, seed):
                             replay=dict(scenario="c01_messages", vars={}, fixed={}, region=z3.BoolVal(True))))
     out += _ws_message_block(srv)
     out.append(sniff_closure_obligation(core, name="kernel:http-sniff-closure", scenario="c01_messages"))
-    return out
+    return _native_battery(out, "c01_messages", [{}], "native-messages")
